@@ -15,7 +15,7 @@ PROPERTY = "C14"
 
 META = {
     "bounds": {
-        "quick": "26 structural error statements x 3 insertion positions in a 3-statement base program and 4 positions (one per block) in a program of three `*=` blocks and a relocated part x 6 entry points; the same statements inside 9 wrappers expanded at code-generation time (taken .if / else, macro body, code argument, loop body, nested blocks, named scope) x 2 entry points; 6 value-dependent statement kinds with a symbolic 24-bit value x 6 entry points; valid programs x 6 entry points",
+        "quick": "26 structural error statements x 3 insertion positions in a 3-statement base program and 4 positions (one per block) in a program of three `*=` blocks and a relocated part x 6 entry points; the same statements inside 9 wrappers expanded at code-generation time (taken .if / else, macro body, code argument, loop body, nested blocks, named scope) x 2 entry points; 6 value-dependent statement kinds with a symbolic 24-bit value (26 bits for the `*=` operand) x 6 entry points; valid programs x 6 entry points",
         "thorough": "same with 4 insertion positions and two base programs",
     },
     "outside": ["argparse itself and the OS process boundary (exercised concretely by --replay through `python -m a816.cli`)", "error classes not listed in the property"],
@@ -217,7 +217,7 @@ def build(spec, cx):
         lines.insert(spec["pos"], stmt)
         return "\n".join(lines) + "\n", {}
     vk = spec["vk"]
-    v = cx.int("v", 0, 0xFFFFFF)
+    v = cx.int("v", 0, 0x3FFFFFF if vk == "star-unmapped" else 0xFFFFFF)     # positions beyond 24 bits are unmapped too
     syms = {"v": v}
     body = {
         "jsr-width": "jsr v", "ldx-width": "ldx v", "rep-width": "rep #v", "branch-range": "bra v",
